@@ -319,6 +319,19 @@ Definition oint (o : option str) : option (option Z) :=
   | Some t => match py_int t with Some z => Some (Some z) | None => None end
   end.
 
+(* the optional (?:T ...) group *)
+Definition time_slots (s4 : str) : option str * option str * option str * str :=
+  match s4 with
+  | c :: s5 =>
+      if N.eqb c 84 then
+        let '(h, s6) := take_slot 72 s5 in
+        let '(mi, s7) := take_slot 77 s6 in
+        let '(se, s8) := take_seconds s7 in
+        (h, mi, se, s8)
+      else (None, None, None, s4)
+  | [] => (None, None, None, s4)
+  end.
+
 (* XmlDuration.__init__ strips the value (like XmlPeriod) before _parse_interval *)
 Definition duration_parse (value0 : str) : option xduration :=
   let value := py_strip value0 in
@@ -330,15 +343,7 @@ Definition duration_parse (value0 : str) : option xduration :=
       let '(y, s2) := take_slot 89 s1 in
       let '(mo, s3) := take_slot 77 s2 in
       let '(d, s4) := take_slot 68 s3 in
-      let '(h, mi, se, s8) :=
-        match s4 with
-        | 84%N :: s5 =>
-            let '(h, s6) := take_slot 72 s5 in
-            let '(mi, s7) := take_slot 77 s6 in
-            let '(se, s8) := take_seconds s7 in
-            (h, mi, se, s8)
-        | _ => (None, None, None, s4)
-        end in
+      let '(h, mi, se, s8) := time_slots s4 in
       if at_end s8 then
         match oint y, oint mo, oint d, oint h, oint mi with
         | Some y', Some mo', Some d', Some h', Some mi' => Some (mk_xduration neg y' mo' d' h' mi' se)
